@@ -215,6 +215,12 @@ class PlanJoinTablesQuery:
                 if not isinstance(arg, (Constant, Parameter)):
                     return
 
+        if isinstance(node, BinaryOperation) and node.op in ('is', 'is not'):
+            if not (node.op == 'is not' and isinstance(node.args[1 - col_idx], ast.NullConstant)):
+                # an "IS NULL"-like test accepts the rows an outer join fills with NULLs:
+                #   it can't be applied to the table before the join
+                return
+
         # checked, find table and store condition
 
         node2 = copy.deepcopy(node)
